@@ -99,6 +99,7 @@ type WorkerOut struct {
 	HarnessErrs []string          `json:"harnessErrs"`
 	Samples     []json.RawMessage `json:"samples"`
 	MultiRuns   int               `json:"multiRuns"`
+	Kinds       map[string]int    `json:"kinds"`
 }
 
 func hashBytes(b []byte) uint64 {
@@ -132,13 +133,14 @@ func cmdWorker(t *testing.T, args []string) int {
 		fmt.Fprintln(os.Stderr, "worker:", err)
 		return 2
 	}
-	out := &WorkerOut{Trans: map[string]int{}, FaultsConf: map[string]int{}, FaultsHit: map[string]int{}, Probes: map[string]int{}, Foreign: map[string]int{}, OwnSigs: map[string]int{}}
+	out := &WorkerOut{Kinds: map[string]int{}, Trans: map[string]int{}, FaultsConf: map[string]int{}, FaultsHit: map[string]int{}, Probes: map[string]int{}, Foreign: map[string]int{}, OwnSigs: map[string]int{}}
 	il := map[uint64]bool{}
 	nt := map[uint64]bool{}
 	states := map[uint64]bool{}
-	for i := job.From; i < job.To; i++ {
-		plan := genFor(job.Profile, job.Prop, runSeed(job.Base, i))
-		res := Execute(t, plan, execOptFor(job.Prop))
+	cur := 0
+	emit := func(plan *Plan, res *RunResult, kind string) {
+		i := cur
+		out.Kinds[kind]++
 		out.Runs++
 		out.Steps += res.Steps
 		out.Ops += res.Ops
@@ -173,7 +175,7 @@ func cmdWorker(t *testing.T, args []string) int {
 			if len(out.HarnessErrs) < 5 {
 				out.HarnessErrs = append(out.HarnessErrs, fmt.Sprintf("run %d seed %d: %s", i, plan.Seed, res.HarnessErr))
 			}
-			continue
+			return
 		}
 		if len(out.Samples) < 2 && i%97 == job.From%97 {
 			s := map[string]any{"run": i, "seed": plan.Seed, "tasks": plan.Tasks, "schedule": res.Trace, "commits": res.Commits, "aborts": res.Aborts, "faults_fired": res.FaultsHit}
@@ -202,6 +204,10 @@ func cmdWorker(t *testing.T, args []string) int {
 		} else if len(res.Violations) > 0 {
 			out.Foreign[strings.Join(res.Violations[0].Props, ",")+":"+res.Violations[0].Sig]++
 		}
+	}
+	for i := job.From; i < job.To; i++ {
+		cur = i
+		runUnit(t, job, i, emit)
 	}
 	for k := range il {
 		out.Interleave = append(out.Interleave, k)
@@ -582,7 +588,7 @@ func cmdCheck(args []string) int {
 	for i := 0; i < workers; i++ {
 		<-done
 	}
-	total := &WorkerOut{Trans: map[string]int{}, FaultsConf: map[string]int{}, FaultsHit: map[string]int{}, Probes: map[string]int{}, Foreign: map[string]int{}, OwnSigs: map[string]int{}}
+	total := &WorkerOut{Kinds: map[string]int{}, Trans: map[string]int{}, FaultsConf: map[string]int{}, FaultsHit: map[string]int{}, Probes: map[string]int{}, Foreign: map[string]int{}, OwnSigs: map[string]int{}}
 	il, nt, states := map[uint64]bool{}, map[uint64]bool{}, map[uint64]bool{}
 	for w := 0; w < workers; w++ {
 		if results[w].code != 0 {
@@ -627,6 +633,9 @@ func cmdCheck(args []string) int {
 		}
 		for k, v := range o.Probes {
 			total.Probes[k] += v
+		}
+		for k, v := range o.Kinds {
+			total.Kinds[k] += v
 		}
 		for k, v := range o.Foreign {
 			total.Foreign[k] += v
@@ -814,4 +823,118 @@ func tail(s string, n int) string {
 	return s
 }
 
-func cmdSelftest(args []string) int { return 2 }
+// digest <profile> <prop> <base> <n>: one line per run with a digest of everything observable about it.
+func cmdDigest(t *testing.T, args []string) int {
+	profile, prop := args[0], args[1]
+	base, _ := strconv.ParseUint(args[2], 10, 64)
+	n, _ := strconv.Atoi(args[3])
+	for i := 0; i < n; i++ {
+		plan := genFor(profile, prop, runSeed(base, i))
+		res := Execute(t, plan, execOptFor(prop))
+		res.SimTimeNs = 0
+		b, _ := json.Marshal(res)
+		fmt.Printf("%d %016x steps=%d viol=%d herr=%q\n", i, hashBytes(b), res.Steps, len(res.Violations), res.HarnessErr)
+	}
+	return 0
+}
+
+// selftest [n=N]: determinism proof. The same seeds are executed in many processes at GOMAXPROCS 1, 4 and 16 and
+// the per-run digests (schedule, states, transitions, violations) must be byte-identical.
+func cmdSelftest(args []string) int {
+	n := 150
+	procs := 10
+	for _, a := range args {
+		if strings.HasPrefix(a, "n=") {
+			n, _ = strconv.Atoi(a[2:])
+		}
+		if strings.HasPrefix(a, "procs=") {
+			procs, _ = strconv.Atoi(a[6:])
+		}
+	}
+	type pp struct{ profile, prop string }
+	var list []pp
+	seen := map[string]bool{}
+	var props []string
+	for p := range propCfgs {
+		props = append(props, p)
+	}
+	sort.Strings(props)
+	for _, p := range props {
+		c := propCfgs[p]
+		if !seen[c.Profile+"/"+p] {
+			seen[c.Profile+"/"+p] = true
+			list = append(list, pp{c.Profile, p})
+		}
+	}
+	bad := 0
+	for _, e := range list {
+		var ref string
+		type r struct {
+			out  string
+			code int
+			gmp  string
+		}
+		ch := make(chan r, 3*procs)
+		cnt := 0
+		for _, gmp := range []string{"1", "4", "16"} {
+			for k := 0; k < procs; k++ {
+				cnt++
+				go func(gmp string) {
+					cmd := exec.Command(selfExe(), "digest", e.profile, e.prop, "7", strconv.Itoa(n))
+					cmd.Env = append(os.Environ(), "GOMAXPROCS="+gmp)
+					out, err := cmd.CombinedOutput()
+					code := 0
+					if err != nil {
+						code = 2
+					}
+					ch <- r{string(out), code, gmp}
+				}(gmp)
+			}
+		}
+		diverged := 0
+		for i := 0; i < cnt; i++ {
+			x := <-ch
+			lines := filterDigest(x.out)
+			if x.code != 0 {
+				fmt.Printf("selftest %s/%s: process failed: %s\n", e.profile, e.prop, tail(x.out, 800))
+				bad++
+				continue
+			}
+			if ref == "" {
+				ref = lines
+			} else if lines != ref {
+				diverged++
+				if diverged == 1 {
+					fmt.Printf("selftest %s/%s: DIVERGENCE at GOMAXPROCS=%s\n%s\n", e.profile, e.prop, x.gmp, firstDiff(ref, lines))
+				}
+			}
+		}
+		fmt.Printf("selftest %s/%s: %d processes x %d seeds, diverged=%d\n", e.profile, e.prop, cnt, n, diverged)
+		bad += diverged
+	}
+	if bad > 0 {
+		return 2
+	}
+	fmt.Println("selftest: deterministic")
+	return 0
+}
+
+func filterDigest(out string) string {
+	var keep []string
+	for _, l := range strings.Split(out, "\n") {
+		if len(l) > 0 && l[0] >= '0' && l[0] <= '9' {
+			keep = append(keep, l)
+		}
+	}
+	return strings.Join(keep, "\n")
+}
+
+func firstDiff(a, b string) string {
+	al, bl := strings.Split(a, "\n"), strings.Split(b, "\n")
+	for i := 0; i < len(al) && i < len(bl); i++ {
+		if al[i] != bl[i] {
+			return "  ref: " + al[i] + "\n  got: " + bl[i]
+		}
+	}
+	return fmt.Sprintf("  length %d vs %d", len(al), len(bl))
+}
